@@ -10,12 +10,23 @@ ACTIONS = ("Fill1", "Mid", "Begin", "Fill", "BinResult", "End")
 def run(chk, replay=None):
     thorough = chk.tier == "thorough"
     chk.cov["checker_cmd"] = "tlc MC_Bins; tlc Trace_C11 (TRACE=out/C11/trace.ndjson)"
-    chk.cov["trusted_base"] = ["TLC", "dyadic parameters/coordinates so that the library's own arithmetic is exact", "exact_scaled projection of sums"]
+    chk.cov["trusted_base"] = ["TLC", "Apalache 0.58 + Z3 (one-axis law for unbounded integers)", "dyadic parameters/coordinates so that the library's own arithmetic is exact", "exact_scaled projection of sums"]
     chk.cov["rule"] = ("Fill1: one-call PLAIN runs with a single projector.add for binnings bx 1..3, 1-d and by 1..2, min {-2,0,1/2}, size {1/4,1,3}, "
                        "scaled by 2^0/2^-20/2^20, coordinates on a quarter-bin lattice from two bins below to two above, NaN, +-inf, +-1e30, 2^64, 9.3e18; "
                        "runs: PLAIN/VEGAS/multi-channel iterations with 3 distributions and 0-2 fills each per call, every bin recomputed by the spec; "
                        "non-trivial = coordinate on an edge, outside the range or non-finite")
     chk.model("MC_Bins", what="MC_Bins: BinOf laws, flat order = mid-point order, huge coordinate never bin 0")
+    # the one-axis law for unbounded integers (Apalache / Z3)
+    import os
+    import shutil
+    out = os.path.join(vt.CACHE, "apa-c11-%d" % os.getpid())
+    r = vt.run(["apalache-mc", "check", "--length=0", "--inv=AxisLaw", "--out-dir=" + out, os.path.join(vt.SPEC, "Bins_apa.tla")], timeout=600, ok_codes=None)
+    shutil.rmtree(out, ignore_errors=True)
+    if r.returncode != 0 or "Checker reports no error" not in r.stdout:
+        raise vt.MachineryError("Apalache did not discharge Bins_apa!AxisLaw:\n" + r.stdout[-1500:])
+    chk.cov["apalache"] = "Bins_apa!AxisLaw over unbounded coordinate, range start, bin size, bin count: no error"
+    chk.cov["obligations"] = 1
+    chk.cov["discharged"] = 1
     exe = vt.build(*BUILDS[0][0])
     trace = replay or chk.path("trace.ndjson")
     if not replay:
